@@ -25,7 +25,13 @@ type vcase struct {
 	FQNs     [][]string   `json:"fqns"`
 	Refs     [][]ws.Ref   `json:"refs"`
 	Desc     []any        `json:"desc"` // abstract descriptor per file (valid cases)
+	// Certain = false: the workspace uses a construct on which the project documents a deliberate
+	// divergence from protoc (synthetic oneof name meeting a nested symbol): C01 / C02 skip it,
+	// C27 still compares the two compilers (the specification does not arbitrate).
+	Certain *bool `json:"certain"`
 }
+
+func (c *vcase) certain() bool { return c.Certain == nil || *c.Certain }
 
 type mismatch struct {
 	Class  string `json:"class"`
@@ -257,6 +263,12 @@ func (r *runner) run(line []byte) {
 	}
 	st.mu.Unlock()
 
+	if !c.certain() && r.mode != "c27" {
+		st.mu.Lock()
+		bump(st.Skipped, "documented-divergence-from-protoc")
+		st.mu.Unlock()
+		return
+	}
 	switch r.mode {
 	case "c01":
 		r.c01(&c, raw, rd, targets)
@@ -554,7 +566,7 @@ func (r *runner) c27(c *vcase, raw json.RawMessage, rd *ws.Rendered, targets []s
 			}
 			// arbitration by the specification (valid cases): which side deviates from Descriptor(file)?
 			who := "spec-undecided"
-			if c.Valid && i < len(c.Desc) {
+			if c.Valid && c.certain() && i < len(c.Desc) {
 				n := 0
 				ps, _ := diffAbstract(c.Desc[i], projectFile(sfd), "", &n)
 				pe, _ := diffAbstract(c.Desc[i], projectFile(efd), "", &n)
